@@ -1034,3 +1034,10 @@ M("C17-benign-register-loop-while", "C17", "src/interrogate/interrogate.cxx",
   "  for (i = 1; i < argc; ++i) {\n    Filename filename = Filename::from_os_specific(argv[i]);\n    filename.make_canonical();\n    parser._explicit_files.insert(filename);\n  }",
   "  i = 1;\n  while (i < argc) {\n    Filename filename = Filename::from_os_specific(argv[i]);\n    filename.make_canonical();\n    parser._explicit_files.insert(filename);\n    ++i;\n  }",
   benign=True)
+
+M("C12-empty-string-keeps-old-value", "C12", "src/interrogatedb/interrogate_datafile.cxx",
+  "  // Skip one character of whitespace, and then read the string.\n  in.get();\n  str = \"\";", "  if (length == 0) {\n    in.get();\n    return;\n  }\n\n  // Skip one character of whitespace, and then read the string.\n  in.get();\n  str = \"\";",
+  expect="R12.6|idf_input_string(std::string&)|destination-always-assigned")
+M("C12-benign-clear-string-first", "C12", "src/interrogatedb/interrogate_datafile.cxx",
+  "  // Skip one character of whitespace, and then read the string.\n  in.get();\n  str = \"\";", "  str.clear();\n  // Skip one character of whitespace, and then read the string.\n  in.get();",
+  benign=True)
